@@ -28,7 +28,7 @@ YOUR TASK: produce TWO DIFFERENT, independent changes to the library source (eac
  1. the library still imports and the EXISTING test suite still passes with the change applied. Run at least the relevant test files, and finally the whole numpy-backend suite:  cd /tmp/wt/{pid} && /venv/bin/python -m pytest -q -p no:cacheprovider -n 4 --ignore=test/examples --ignore=test/pyro --ignore=test/pyroapi --ignore=test/torch test/    (takes several minutes; the unpatched tree gives 7670 passed, 3859 skipped, 65 xfailed, 2 xpassed - your patched tree must give the same counts, no failures);
  2. the change BREAKS the property above: there is a concrete input / sequence of operations for which the property's statement is false with the change and true without it;
  3. the breakage needs something SPECIFIC to manifest - an unusual input, a particular combination of names/sizes/shapes, a multi-step sequence of operations, a fault/exception at a particular point, or two cooperating sites that each look fine alone. It must NOT be something ordinary use would expose at once (the existing tests passing is the minimum bar; prefer bugs that a casual smoke test would also miss). It should look like a plausible developer mistake (off-by-one, wrong variable, missing case, over-eager optimisation, stale cache, swapped operands in a rarely used branch, a 'simplification' that is only valid in the common case, ...), not sabotage with magic constants.
- 4. you provide a small demonstration program demo.py (plain Python, no pytest needed, exits non-zero / raises AssertionError when the property is violated and exits 0 otherwise) that FAILS with the change applied and PASSES on the unpatched worktree. Confirm both by actually running it (git stash / git checkout to flip).
+ 4. you provide a small demonstration program demo.py (plain Python, no pytest needed, exits non-zero / raises AssertionError when the property is violated and exits 0 otherwise) that FAILS with the change applied and PASSES on the unpatched worktree. Confirm both by actually running it (flip with `git diff > saved.diff; git checkout -- funsor; ...; git apply saved.diff` - never use `git stash`: the stash is shared between all worktrees of /repo and other people are working in theirs).
 
 Deliverables, written to /tmp/seedout/{pid}/ :
   c/patch.diff  c/demo.py  c/notes.md      (change c)
